@@ -289,6 +289,17 @@ func cmdCheck(argv []string) {
 			out, err := rp.run(*v, path)
 			replayed++
 			repro = classifyReplay(*v, out, err)
+			if repro != "reproduced" && scheduleDependent(*v) {
+				// the counterexample is a schedule: try to hit it natively by repetition
+				t1 := time.Now()
+				for n := 0; n < 400 && time.Since(t1) < 25*time.Second && repro != "reproduced"; n++ {
+					out, err = rp.run(*v, path)
+					repro = classifyReplay(*v, out, err)
+				}
+				if repro != "reproduced" {
+					repro = "schedule-only"
+				}
+			}
 			if repro == "reproduced" {
 				reproduced++
 			}
@@ -297,10 +308,13 @@ func cmdCheck(argv []string) {
 		case kf != nil:
 			seenKnown[key] = true
 			knownLines = append(knownLines, fmt.Sprintf("KNOWN-FINDING: property=%s %s [%s %s: %s; native replay: %s]", id, kf.What, v.Harness, v.Kind, v.Msg, repro))
-		case repro == "reproduced" || repro == "skipped":
+		case repro == "reproduced" || repro == "skipped" || repro == "schedule-only":
 			seenViol[key] = true
 			violLines = append(violLines, fmt.Sprintf("VIOLATION property=%s replay=%s", id, path))
 			fmt.Printf("  counterexample: %s%v %s: %s\n", v.Harness, v.Args, v.Kind, v.Msg)
+			if repro == "schedule-only" {
+				fmt.Printf("  (schedule-dependent: the interleaving is replayed deterministically by the interpreter from the decision trace in the replay file; repeated native runs did not hit it)\n")
+			}
 		default:
 			seenViol[key] = true
 			inconcl = append(inconcl, fmt.Sprintf("%s%v: counterexample (%s: %s) did not reproduce natively (%s) — engine or stub defect, not reported as a violation; replay file %s", v.Harness, v.Args, v.Kind, v.Msg, repro, path))
@@ -438,6 +452,17 @@ func (r *replayer) writeReplayFile(prop string, v violation) string {
 	b, _ := json.MarshalIndent(v, "", " ")
 	os.WriteFile(path, b, 0o644)
 	return path
+}
+
+// scheduleDependent reports whether the counterexample's decision trace
+// contains scheduling choices.
+func scheduleDependent(v violation) bool {
+	for _, d := range v.Trace {
+		if d.W == "sched" || strings.HasPrefix(d.W, "preempt@") || d.W == "select" {
+			return true
+		}
+	}
+	return false
 }
 
 // ownerOf extracts the owning property from a message of the form "[C04] ...".
